@@ -229,4 +229,17 @@ def function_structure(model_proto: Any) -> tuple[bool, str, dict]:
     for key, defs in fns.items():
         if len(defs) > 1:
             problems.append(f"duplicate definition {key}")
+    # function bodies must be closed: every consumed value is a function input or
+    # produced inside the body (ONNX functions have no outer scope)
+    for f in model_proto.functions:
+        known = set(f.input) | {""}
+        for n in f.node:
+            for i in n.input:
+                if i not in known:
+                    problems.append(f"fn {f.domain}:{f.name}: node {n.op_type} consumes {i!r} which the body neither receives nor produces")
+                    break
+            known.update(n.output)
+        for o in f.output:
+            if o not in known:
+                problems.append(f"fn {f.domain}:{f.name}: output {o!r} is not produced in the body")
     return (not problems), "; ".join(problems[:5]), {"calls": {f"{k[0]}:{k[1]}": v for k, v in calls.items()}, "n_functions": len(model_proto.functions)}
